@@ -1,28 +1,31 @@
-(* Proofs about Elem/RR.v: the theorems of SchedBaseProofs.v instantiated for RR (onl/scheduler/rr.py); every statement quantifies over
+(* Proofs about Elem/RR.v: the theorems of SchedBaseProofs.v instantiated for RR (onl/scheduler/rr.py; identity class map); every statement quantifies over
    ALL admissible executions (rr_run ... acts = Some (s, tr)), all rates > 0 and all configurations. *)
 From Coq Require Import ZArith QArith List Bool Lia Lqa.
 From ONL Require Import Elem.Packet Elem.StoreQ Elem.StoreQProofs Elem.SchedBase Elem.SchedBaseProofs Elem.RR.
 Import ListNotations.
 
+Lemma rr_wf r fl : 0 < r -> wf (rr_cfg r fl).
+Proof. intros R. split; [exact R|]. intros _ f. reflexivity. Qed.
+
 Lemma rr_cfg_ok r fl : 0 < r -> cfg_ok (rr_cfg r fl).
 Proof.
-  intros R. split; [exact R|]. intros f n Hin. cbn in Hin. apply in_map_iff in Hin as (g & E & _). injection E as _ <-. lia.
+  intros R. split; [apply rr_wf; exact R|]. intros f n Hin. cbn in Hin. apply in_map_iff in Hin as (g & E & _). injection E as _ <-. lia.
 Qed.
 
 Lemma rr_work_conserving : forall (r : Q) (fl : list Z) acts s tr t x,
   0 < r ->
   rr_run r fl acts = Some (s, tr) -> rr_act r fl s (SAdvance t) = Some x ->
-  (exists p dl, mchild s = CTx p dl /\ mcur s = Some p /\ mnow s < dl) \/ (forall f, held_flow s f = []).
+  (exists p dl, mchild s = CTx p dl /\ mcur s = Some p /\ mnow s < dl) \/ (forall k, held_class (rr_cfg r fl) s k = []).
 Proof. intros r fl acts s tr t x R H A. exact (work_conserving0 (rr_cfg r fl) acts s tr t x (rr_cfg_ok r fl R) H A). Qed.
 
 Lemma rr_one_at_a_time_tx_time : forall (r : Q) (fl : list Z) acts s tr,
   0 < r ->
   rr_run r fl acts = Some (s, tr) -> tx_wf (rr_cfg r fl) None tr.
-Proof. intros r fl acts s tr R H. exact (tx_wf_run0 (rr_cfg r fl) acts s tr R H). Qed.
+Proof. intros r fl acts s tr R H. exact (tx_wf_run0 (rr_cfg r fl) acts s tr (rr_wf r fl R) H). Qed.
 
 Lemma rr_back_to_back : forall (r : Q) (fl : list Z) acts1 s1 tr1 s2 o acts2 s3 tr2 t x,
   0 < r ->
-  rr_run r fl acts1 = Some (s1, tr1) -> rr_act r fl s1 SChildTimer = Some (s2, o) -> (exists f, held_flow s2 f <> []) ->
+  rr_run r fl acts1 = Some (s1, tr1) -> rr_act r fl s1 SChildTimer = Some (s2, o) -> (exists k, held_class (rr_cfg r fl) s2 k <> []) ->
   mq_run (rr_cfg r fl) s2 acts2 = Some (s3, tr2) -> (forall t', ~ In (SAdvance t') acts2) -> rr_act r fl s3 (SAdvance t) = Some x ->
   exists e p, In e tr2 /\ In (OStart p) (snd e) /\ fst (fst e) = mnow s2.
 Proof. intros r fl acts1 s1 tr1 s2 o acts2 s3 tr2 t x R H1 A2 Hh H2 NA A3. exact (back_to_back (rr_cfg r fl) acts1 s1 tr1 s2 o acts2 s3 tr2 t x (rr_cfg_ok r fl R) H1 A2 Hh H2 NA A3). Qed.
@@ -31,23 +34,23 @@ Lemma rr_flow_fifo : forall (r : Q) (fl : list Z) acts s tr f,
   0 < r ->
   rr_run r fl acts = Some (s, tr) ->
   exists rest, filter (is_flow f) (tr_puts tr) = filter (is_flow f) (tr_fwds tr) ++ rest.
-Proof. intros r fl acts s tr f R H. exact (run_flow_fifo (rr_cfg r fl) acts s tr f R H). Qed.
+Proof. intros r fl acts s tr f R H. exact (run_flow_fifo (rr_cfg r fl) acts s tr f (rr_wf r fl R) H). Qed.
 
 Lemma rr_exactly_once : forall (r : Q) (fl : list Z) acts s tr p,
   0 < r ->
   rr_run r fl acts = Some (s, tr) ->
   count_occ pkt_eq_dec (tr_puts tr) p
-  = (count_occ pkt_eq_dec (tr_fwds tr) p + count_occ pkt_eq_dec (held_flow s (flow p)) p)%nat.
-Proof. intros r fl acts s tr p R H. exact (run_exactly_once (rr_cfg r fl) acts s tr p R H). Qed.
+  = (count_occ pkt_eq_dec (tr_fwds tr) p + count_occ pkt_eq_dec (held_class (rr_cfg r fl) s ((flow p))) p)%nat.
+Proof. intros r fl acts s tr p R H. exact (run_exactly_once (rr_cfg r fl) acts s tr p (rr_wf r fl R) H). Qed.
 
 Lemma rr_counters : forall (r : Q) (fl : list Z) acts s tr,
   0 < r ->
   rr_run r fl acts = Some (s, tr) ->
-  (forall f, mqc s f = Z.of_nat (length (held_flow s f)) /\ mqb s f = sumsz (held_flow s f))
-  /\ mtotal s = zsum (fun f => Z.of_nat (length (held_flow s f))) (dflows (rr_cfg r fl))
+  (forall f, mqc s f = Z.of_nat (length (held_flow (rr_cfg r fl) s f)) /\ mqb s f = sumsz (held_flow (rr_cfg r fl) s f))
+  /\ mtotal s = zsum (fun k => Z.of_nat (length (held_class (rr_cfg r fl) s k))) (dclasses (rr_cfg r fl))
   /\ mcur s = match mchild s with CTx p _ => Some p | _ => None end
   /\ mrecv s = Z.of_nat (length (tr_puts tr)).
-Proof. intros r fl acts s tr R H. exact (run_counters (rr_cfg r fl) acts s tr R H). Qed.
+Proof. intros r fl acts s tr R H. exact (run_counters (rr_cfg r fl) acts s tr (rr_wf r fl R) H). Qed.
 
 Lemma rr_never_spins : forall (r : Q) (fl : list Z) acts s tr,
   0 < r ->
@@ -58,21 +61,22 @@ Lemma rr_monitor_samples : forall (r : Q) (fl : list Z) acts s tr incl,
   0 < r ->
   rr_run r fl acts = Some (s, tr) ->
   rr_act r fl s (SSample incl) =
-    Some (s, [OSample (map (fun f => let l := if incl then held_flow s f else waiting_flow s f in
-                                     (f, Z.of_nat (length l), sumsz l)) (dflows (rr_cfg r fl)))]).
-Proof. intros r fl acts s tr incl R H. exact (monitor_samples0 (rr_cfg r fl) acts s tr incl R H). Qed.
+    Some (s, [OSample (map (fun f => let l := if incl then held_flow (rr_cfg r fl) s f else waiting_flow (rr_cfg r fl) s f in
+                                     (f, Z.of_nat (length l), sumsz l)) (sflows (rr_cfg r fl)))]).
+Proof. intros r fl acts s tr incl R H. exact (monitor_samples0 (rr_cfg r fl) acts s tr incl (rr_wf r fl R) H). Qed.
 
 Lemma rr_conserves : forall (r : Q) (fl : list Z) acts s tr,
   0 < r ->
   rr_run r fl acts = Some (s, tr) ->
-  (forall f, filter (is_flow f) (tr_puts tr) = filter (is_flow f) (tr_fwds tr) ++ held_flow s f)
-  /\ (forall p, In p (tr_puts tr) -> In (flow p) (flows (rr_cfg r fl))).
-Proof. intros r fl acts s tr R H. exact (run_conserves (rr_cfg r fl) acts s tr R H). Qed.
+  (forall k, filter (is_class (rr_cfg r fl) k) (tr_puts tr) = filter (is_class (rr_cfg r fl) k) (tr_fwds tr) ++ held_class (rr_cfg r fl) s k)
+  /\ (forall f, filter (is_flow f) (tr_puts tr) = filter (is_flow f) (tr_fwds tr) ++ held_flow (rr_cfg r fl) s f)
+  /\ (forall p, In p (tr_puts tr) -> In ((flow p)) (classes (rr_cfg r fl))).
+Proof. intros r fl acts s tr R H. exact (run_conserves (rr_cfg r fl) acts s tr (rr_wf r fl R) H). Qed.
 
 Lemma rr_drained : forall (r : Q) (fl : list Z) acts s tr,
   0 < r ->
   rr_run r fl acts = Some (s, tr) -> urgent (rr_cfg r fl) s = false -> (forall p dl, mchild s <> CTx p dl) ->
-  (forall f, held_flow s f = []) /\ (forall f, mqc s f = 0%Z /\ mqb s f = 0%Z) /\ mcur s = None /\
+  (forall k, held_class (rr_cfg r fl) s k = []) /\ (forall f, mqc s f = 0%Z /\ mqb s f = 0%Z) /\ mcur s = None /\
   (forall f, filter (is_flow f) (tr_puts tr) = filter (is_flow f) (tr_fwds tr)) /\ mpc s <> PSpin.
 Proof. intros r fl acts s tr R H U Nd. exact (drained0 (rr_cfg r fl) acts s tr (rr_cfg_ok r fl R) H U Nd). Qed.
 
@@ -81,19 +85,19 @@ Lemma rr_visit : forall (r : Q) (fl : list Z) acts s tr,
   rr_run r fl acts = Some (s, tr) ->
   exists k, walk (pass (rr_cfg r fl)) (pass (rr_cfg r fl)) (tr_visits tr) = Some k /\
             norm (pass (rr_cfg r fl)) k = norm (pass (rr_cfg r fl)) (cursor (rr_cfg r fl) s).
-Proof. intros r fl acts s tr R H. exact (visits_run0 (rr_cfg r fl) acts s tr R eq_refl H). Qed.
+Proof. intros r fl acts s tr R H. exact (visits_run0 (rr_cfg r fl) acts s tr (rr_wf r fl R) eq_refl H). Qed.
 
 Lemma rr_visit_meaning : forall (r : Q) (fl : list Z) acts s tr a s' o f b,
   0 < r ->
   rr_run r fl acts = Some (s, tr) -> rr_act r fl s a = Some (s', o) -> In (OVisit f b) o ->
   if b then exists x rest, items (mstores s f) = x :: rest /\ get (mstores s' f) = GGranted x /\ items (mstores s' f) = rest
-  else items (mstores s f) = [] /\ held_flow s f = [].
-Proof. intros r fl acts s tr a s' o f b R H A Hin. exact (visit_meaning0 (rr_cfg r fl) acts s tr a s' o f b R H A Hin). Qed.
+  else items (mstores s f) = [] /\ held_class (rr_cfg r fl) s f = [].
+Proof. intros r fl acts s tr a s' o f b R H A Hin. exact (visit_meaning0 (rr_cfg r fl) acts s tr a s' o f b (rr_wf r fl R) H A Hin). Qed.
 
 Lemma rr_starts_follow_visits : forall (r : Q) (fl : list Z) acts s tr,
   0 < r ->
-  rr_run r fl acts = Some (s, tr) -> served (tr_visits tr) = map flow (tr_starts tr) ++ pending s.
-Proof. intros r fl acts s tr R H. exact (starts_follow_visits0 (rr_cfg r fl) acts s tr R H). Qed.
+  rr_run r fl acts = Some (s, tr) -> served (tr_visits tr) = map (pclass (rr_cfg r fl)) (tr_starts tr) ++ pending (rr_cfg r fl) s.
+Proof. intros r fl acts s tr R H. exact (starts_follow_visits0 (rr_cfg r fl) acts s tr (rr_wf r fl R) H). Qed.
 
 (* non-vacuity: a concrete admissible execution (observed on the real RR: four packets put at t = 0 before the wake-up
    token is processed, 128 B at 1024 bit/s = 1 s each), its departure order, its visits, and the drained final state *)
